@@ -337,12 +337,19 @@ Print Assumptions C08_transfer_elements_real.
 
 (* ---- tensor layer: the N of divide_by_n ---------------------------------------------------------------------- *)
 (* prox / prox_convex_conj divide by math.prod(shape[i] for i in dim) (python indexing, negative i allowed); forward's
-   torch.mean divides by the number of reduced elements; both are the same N for every dim without repeated axes *)
+   torch.mean divides by the number of reduced elements; both are the same N for every dim without repeated axes
+   (an empty dim means all dimensions in both, as in torch.sum / torch.mean) *)
 Theorem C08_divide_by_n_consistent : forall (sx : list Z) (dim : option (list Z)), (0 < length sx)%nat ->
   match dim with None => True | Some ds => NoDup (map (fun d => (d mod Z.of_nat (length sx))%Z) ds) end ->
   nprox sx dim = nred sx (norm_dims (Z.of_nat (length sx)) dim).
 Proof. exact nprox_nred. Qed.
 Print Assumptions C08_divide_by_n_consistent.
+
+(* before the repair de813cf an empty dim gave N = 1 in prox while forward averages over all elements *)
+Theorem C08_divide_by_n_empty_dim_legacy_refuted :
+  exists sx, nprox_legacy sx (Some []) <> nred sx (norm_dims (Z.of_nat (length sx)) (Some [])).
+Proof. exact nprox_legacy_refuted. Qed.
+Print Assumptions C08_divide_by_n_empty_dim_legacy_refuted.
 
 Theorem C08_reduce_count : forall sx dims oflat, length (red_indices sx dims oflat) = Z.to_nat (nred sx dims).
 Proof. exact red_indices_length. Qed.
